@@ -78,6 +78,10 @@ type config struct {
 	// FailCanceled: a daemon failure surfaces as context.Canceled, the error
 	// the real connector returns when it abandons a stalled pin/add
 	FailCanceled bool
+	// LateAnswers: the daemon may carry a parked pin/unpin call out at once
+	// and deliver its answer later (event E:<call>, then A:<call>), also
+	// after the operation that made the call has been superseded
+	LateAnswers bool
 }
 
 // pass bounds one DFS: instructions per path and deviations per path.
@@ -215,7 +219,19 @@ func newWorld(cfg config) *world {
 }
 
 func (w *world) shutdown() {
+	// answers still on the way do not listen to cancellation: deliver them
+	for _, c := range w.model.Parked() {
+		if c.Effected {
+			w.model.Complete(c, clus.Apply)
+		}
+	}
+	synctest.Wait()
 	w.tr.Shutdown(w.ctx)
+	for _, c := range w.model.Parked() {
+		if c.Effected {
+			w.model.Complete(c, clus.Apply)
+		}
+	}
 	if w.closeConn != nil {
 		w.closeConn()
 	}
@@ -394,6 +410,16 @@ func (w *world) parked() (names []string, calls map[string]*clus.Call) {
 	return
 }
 
+func (w *world) effect(name string) {
+	_, calls := w.parked()
+	c := calls[name]
+	if c == nil {
+		panic("effect: no parked call named " + name)
+	}
+	w.model.Effect(c)
+	synctest.Wait()
+}
+
 func (w *world) complete(name string, act clus.Action) {
 	_, calls := w.parked()
 	c := calls[name]
@@ -497,6 +523,9 @@ func (w *world) canon() string {
 			fmt.Fprintf(&b, " call=%s", c.Kind)
 			if c.Pin != nil {
 				fmt.Fprintf(&b, "/%s", depthName(c.Pin.MaxDepth))
+			}
+			if c.Effected {
+				b.WriteString("/answer-on-the-way")
 			}
 		}
 		if w.tol[l] {
